@@ -69,6 +69,9 @@ NOISE_STATE_CLOSED = 4
 
 NOISE_HELLO = b"\x01\x00\x00"
 
+# 65535 (16 bit frame length) - 16 (MAC) - 4 (inner type and length header)
+MAX_NOISE_PAYLOAD_SIZE = 65515
+
 int_ = int
 
 
@@ -326,6 +329,16 @@ class APINoiseFrameHelper(APIFrameHelper):
         """
         if TYPE_CHECKING:
             assert self._encrypt_cipher is not None, "Handshake should be complete"
+
+        # The frame length and the inner data length are 16 bit fields,
+        # refuse anything that would silently wrap around before
+        # encrypting any packet so the nonce sequence stays intact.
+        for packet in packets:
+            if len(packet[1]) > MAX_NOISE_PAYLOAD_SIZE or packet[0] > 0xFFFF:
+                raise ProtocolAPIError(
+                    f"{self._log_name}: Message type {packet[0]} with {len(packet[1])} "
+                    "bytes does not fit in a noise frame"
+                )
 
         out: list[bytes] = []
         for packet in packets:
